@@ -472,7 +472,8 @@ extern "C" int LLVMFuzzerTestOneInput(const uint8_t *data, size_t size) {
   }
   bool pending = false; for (Rec *r : w.recs) if (r->cb_calls == 0) pending = true;
   if (pending) {   // whatever is still outstanding is stalled / lost on the wire: only a failure can complete it
-    if (w.client_hooks && w.n_unstarted) for (Rec *r : w.recs) CHECK(r->cb_calls != 0 || r->scheduled, K_STRANDED, "request q%d is still in the pool's queue although its connection is idle: the request scheduled before it was terminated by the output hook (UNSTARTED) and nothing schedules the next one", r->id);
+    int in_flight = 0; for (Rec *r : w.recs) if (r->scheduled && r->cb_calls == 0) in_flight++;   // each occupies a connection (nothing is paused any more)
+    if (w.client_hooks && w.n_unstarted && in_flight < w.nevcon) for (Rec *r : w.recs) CHECK(r->cb_calls != 0 || r->scheduled, K_STRANDED, "request q%d is still in the pool's queue although its connection is idle: the request scheduled before it was terminated by the output hook (UNSTARTED) and nothing schedules the next one", r->id);
     CHECK(w.disruptive, "C43/never-completed", "a request is still outstanding after the world went quiescent although nothing disrupted the connection");
     TR("--- kill the relay, advance the clock");
     relay_unlisten(w); for (auto &c : w.conns) if (!c.dead) conn_kill(c);
